@@ -104,10 +104,16 @@ def check(prop, tier, seed, a):
             rep["source_sha256"] = meta[c.name].get("sha")
             rep["scenario"] = o["sname"]
             try:
-                no = run_native(c, o["sname"], x["model"] or {})
-                rep["native"] = dict(pre_ok=no.pre_ok, exit=no.exit, exc=repr(no.exc) if no.exc else None,
-                                     result=_short(no.result)[:300], failed=no.failed, error=no.error)
-                rep["reproduced"] = bool(no.pre_ok and no.failed)
+                # in a forked child: the real code may leave process-wide tables changed (that is what some violations are about),
+                # which must not leak into the replay of the next counter-model
+                from .driver import _native_in_child, _preimport_native
+                _preimport_native()
+                no = _native_in_child(c, o["sname"], x["model"] or {}, tolerant=False)
+                if no is None:
+                    rep["native"] = dict(error="the replay process ended without a result")
+                else:
+                    rep["native"] = dict(pre_ok=no["pre_ok"], exit=no["exit"], exc=no["exc_text"], result=no.get("result"), failed=no["failed"], error=no["error"])
+                    rep["reproduced"] = bool(no["pre_ok"] and no["failed"])
             except Exception as e:
                 rep["native"] = dict(error=f"{type(e).__name__}: {e}")
         kf = match_finding(open_findings, name, rep)
